@@ -732,9 +732,6 @@ func (s *Store) GetFilePathsChangedByCommit(commitID githash.Hash) ([]string, er
 			paths = append(paths, p)
 		}
 		sort.Strings(paths)
-		if len(paths) == 0 {
-			return []string{""}, nil // strings.Split("", "\n") in gitinterface
-		}
 		return paths, nil
 	case 1:
 		p, err := s.parseCommit(c.Parents[0])
